@@ -234,6 +234,8 @@ def p2b(prog, tier="quick"):
         "method:back": lambda ev, o, a: o.items[-1] if o.items else (_ for _ in ()).throw(Broken("back() on an empty vector")),
         "method:pop_back": lambda ev, o, a: o.items.pop(),
         "method:push_back": lambda ev, o, a: o.items.append(a[0]),
+        "method:operator[]": lambda ev, o, a: o.items[int(a[0])] if 0 <= int(a[0]) < len(o.items) else (_ for _ in ()).throw(Broken("operator[] outside the value vector")),
+        "method:at": lambda ev, o, a: o.items[int(a[0])] if 0 <= int(a[0]) < len(o.items) else (_ for _ in ()).throw(Thrown("std::out_of_range")),
         "method:end": lambda ev, o, a: _It(o, len(o.items)),
         "method:begin": lambda ev, o, a: _It(o, 0),
         "method:rbegin": lambda ev, o, a: _It(o, 0, True),
